@@ -119,6 +119,7 @@ func All() []Val {
 		{"s-1.5", `"1.5"`, s("1.5"), "string"},
 		{"s-true", `"true"`, s("true"), "string"},
 		{"s-utf8", `"é世"`, s("é世"), "string"},
+		{"s-ea", `"éa"`, s("éa"), "string"},
 		{"s-nul", `"a\x00b"`, s("a\x00b"), "string"},
 		{"s-badutf8", "", s("\xff"), "string"},
 		{"b-empty", `bytes("")`, b(""), "bytes"},
